@@ -113,6 +113,9 @@ def replay_coexec(prop, path, engines_for):
     if case is None:
         print("replay file names an obligation, not an input:", payload.get("theorem_or_correspondence"))
         return 1
+    if payload.get("part") == "trace":
+        from .trace_part import replay_trace
+        return replay_trace(prop, payload, path)
     if payload.get("part") == "deleg":
         from . import deleg_part
         return deleg_part.replay(prop, payload, path)
